@@ -98,6 +98,7 @@ fn main() {
     let t0 = std::time::Instant::now();
     let out = match which.as_str() {
         "c09" => c09::run(thorough, only.as_deref()),
+        "scale" => c09::run_scale(thorough, only.as_deref()),
         "c17" => c17::run(thorough, only.as_deref()),
         "c18" => c18::run(thorough, only.as_deref()),
         "c19" => c19::run(thorough, only.as_deref()),
